@@ -100,6 +100,12 @@ def _expand(fnorm, node, v, path):
             v = _subst(v, lambda x: isinstance(x, ast.Attribute) and attr_path(x) == path, pv)
     env = fnorm.env_at(node)
     here = fnorm.rd.get(node.id, {})
+    for _round in range(6):      # locals with one reaching definition, so that the names inside them are visible
+        nms = {x.id for x in ast.walk(v) if isinstance(x, ast.Name) and isinstance(x.ctx, ast.Load) and x.id in env.defs}
+        if not nms:
+            break
+        for nm in nms:
+            v = _subst(v, lambda x, _n=nm: isinstance(x, ast.Name) and x.id == _n, env.defs[nm])
     for nm in {x.id for x in ast.walk(v) if isinstance(x, ast.Name)}:
         ds = here.get(nm)
         if nm in env.defs or not ds or len(ds) < 2:
@@ -306,6 +312,12 @@ def _verinfo_positions(idx, r):
 def run(ctx: Context):
     idx = ctx.idx
     folder = get_folder(idx)
+    # results of earlier rules that later rules build on (a rule that stopped with an analysis error leaves None)
+    pos = T_PUB = disk = tabs = prefix = sdmf_extent = lay = rpe = po = None
+
+    def _need(what, *vals):
+        if any(v is None for v in vals):
+            raise AnalysisError("depends on %s, which could not be analysed" % what)
 
     # ---- 1. formulas -------------------------------------------------------
     with ctx.rule("C09.1", "R6", "segment count, tail size, block size and tail-block size are the same formulas of "
@@ -598,6 +610,7 @@ def run(ctx: Context):
     with ctx.rule("C09.3", "R5", "SDMF share: signed prefix, offset table (format, key order, position) and the order "
                   "of the joined pieces agree between SDMFSlotWriteProxy and the read proxy's version-0 branches",
                   expected=4) as r:
+        _need("the header / offset tables of C09.2", disk, tabs, prefix, lay, rpe, po)
         if 0 not in disk or 0 not in tabs:
             raise AnchorVanished("no SDMF (version 0) header / offset unpack in the read proxy")
         fmt0, roles0, lo0, hi0, n0 = disk[0]
@@ -692,7 +705,7 @@ def run(ctx: Context):
         r.site(od, None, "offset chain")
         order = sorted(P, key=lambda k: len(P[k][0]))
         hdr0 = struct.calcsize(sfmt) + struct.calcsize(ofmt0)
-        sdmf_extent = {}
+        ext = {}
         okc = len(order) == len(pieces) == len(wkeys0)
         for i, k in enumerate(order):
             lens, const = P[k]
@@ -701,13 +714,15 @@ def run(ctx: Context):
         r.require(okc, od, od.loc(), "offsets %s do not describe the joined order %s behind a %d-byte header" % (
             [(k, sorted(P[k][0]), P[k][1]) for k in order], pieces, hdr0))
         if okc:
-            sdmf_extent[pieces[0]] = (hdr0, order[0])
+            ext[pieces[0]] = (hdr0, order[0])
             for i in range(1, len(pieces)):
-                sdmf_extent[pieces[i]] = (order[i - 1], order[i])
+                ext[pieces[i]] = (order[i - 1], order[i])
+        sdmf_extent = ext
 
     # ---- 4. section extents ------------------------------------------------
     with ctx.rule("C09.4", "R5", "each share section is read from the offset keys between which the writer placed it "
                   "(both versions); MDMF block offset formula, read length and salt||block order agree", expected=16) as r:
+        _need("the SDMF layout of C09.3", sdmf_extent)
         SECT = [("put_encprivkey", "get_encprivkey", "encprivkey"), ("put_blockhashes", "get_blockhashes", "block_hash_tree"),
                 ("put_sharehashes", "get_sharehashes", "share_hash_chain"), ("put_signature", "get_signature", "signature"),
                 ("put_verification_key", "get_verification_key", "verification_key")]
@@ -1007,6 +1022,7 @@ def run(ctx: Context):
     # ---- 6. in-place update reads the same verinfo fields ------------------
     with ctx.rule("C09.6", "R5/R6", "the in-place update path takes segment size, data length and the SDMF salt from "
                   "the verinfo positions the producers use, and computes the start segment like Publish", expected=7) as r:
+        _need("the verinfo positions of C09.1", pos, T_PUB)
         iS, iD = pos["S"], pos["D"]
         bv = idx.func(RP + ".get_verinfo._build_verinfo")
         ret_t = [n for n in bv.cfg().nodes if is_return(n)][0].ast.value
